@@ -666,7 +666,7 @@ def gen_model(seed):
     # a custom recogniser (a rename on loading has no inverse on dumping)
     hookfree = not any(c['hassav'] or c['hasrecog'] for c in classes)
     return M('gen%d' % seed, classes, dts, keys=keys, scalars=scal,
-             mtags=tuple(tags), qn=5, tn=6, rootk='m', nodup=True,
+             mtags=tuple(tags), qn=5, tn=5, rootk='m', nodup=True,
              rtypes=dts if hookfree else [], family='gen',
              strs=['abc', 'red'], qo=4, to=5,
              note='generated, seed %d' % seed)
